@@ -80,6 +80,12 @@ Theorem access_crop_first :
 Proof. exact access_crop_first_lemma. Qed.
 Print Assumptions access_crop_first.
 
+(* premise of S4: no unseeded random stream in threshold.py, smooth.py, otsu.py (regenerated list) *)
+Theorem random_streams_seeded :
+  forallb (fun u => rand_ok (snd u)) threshold_random_uses = true.
+Proof. exact random_streams_seeded_lemma. Qed.
+Print Assumptions random_streams_seeded.
+
 (* soundness of the checker that is evaluated on get_threshold's actual return values *)
 Theorem check_thresholds_sound : forall (mul : Q -> Q -> Q) lo hi g band ts,
   check_thresholds mul lo hi g band ts = true ->
